@@ -220,6 +220,38 @@ def run(chk: lib.Check):
                         except Exception as ex:  # noqa: BLE001
                             exp.append(err_of(ex))
                 qcases.append(([False, frs, [], [], hs], [[], [], exp]))
+                # a UUID in use in ANOTHER fragment must be refused for a new object, exactly as in the single-file model
+                try:
+                    import histories
+                    hr = histories.HistoryRunner(frag, rng)
+                    inner = frag.by_uuid(chosen[-1].get("id"))
+                    host = None
+                    for cand in [inner] + [frag.by_uuid(c.get("id")) for c in list(chosen[-1])[:10] if c.get("id")]:
+                        if hr.rels(cand, ("direct",)):
+                            host = cand
+                            break
+                    outside = next((e.get("id") for e in sem_elements(frag._loader)
+                                    if frag._loader.find_fragment(e) != frag._loader.find_fragment(inner._element)), None)
+                    if host is not None and outside:
+                        relname, racc = hr.rels(host, ("direct",))[0]
+                        hints = sorted(getattr(racc, "xtypes", []) or [])
+                        n_before = sum(1 for _ in sem_elements(frag._loader))
+                        try:
+                            lst_ = getattr(host, relname)
+                            lst_.create(hints[0], name="clash", uuid=outside) if hints else lst_.create(name="clash", uuid=outside)
+                            res_ = "accepted"
+                        except ValueError:
+                            res_ = "ValueError"
+                        except Exception as ex:  # noqa: BLE001
+                            res_ = type(ex).__name__
+                        stats[f"cross-fragment-uuid-clash:{res_}"] += 1
+                        n_after = sum(1 for _ in sem_elements(frag._loader))
+                        owners_ = sum(1 for e in sem_elements(frag._loader) if e.get("id") == outside)
+                        if res_ == "accepted" or n_after != n_before or owners_ != 1:
+                            chk.violation(f"cross-fragment-uuid-clash:{res_}", f"create(uuid=<id used in another fragment>) in a fragment: {res_}; elements {n_before}->{n_after}; "
+                                          f"the id now occurs {owners_}x", {"model": spec0["name"], "picks": picks, "uuid": outside, "host": host.uuid, "relation": relname})
+                except Exception as ex:  # noqa: BLE001
+                    stats[f"clash-probe-skipped:{type(ex).__name__}"] += 1
                 # edits + save on the fragmented layout: each element is written to the file that owns it
                 try:
                     tgt = frag.by_uuid(chosen[-1].get("id"))
